@@ -126,11 +126,11 @@ func Run(t *testing.T, w World, opt Options) (res Result) {
 			opt.MaxSteps = 600000
 		}
 	}
-	if opt.Dense {
-		// a dense run spends thousands of steps in loops that are a single step otherwise; letting timers run ahead of
-		// runnable work on top of that would let simulated minutes pass inside one loop and void every time-bounded
-		// clause. Dense runs explore memory-level interleavings; timer-versus-task races are the other runs' job.
-		opt.TimerSlack = 0
+	if opt.Dense && opt.TimerSlack > time.Second {
+		// a dense run spends thousands of steps in loops that are a single step otherwise: keep the clock close to them
+		// (a task that stays runnable from scheduling point to scheduling point counts as one piece of waiting work, so
+		// the clock never gets more than the slack ahead of the start of such a stretch)
+		opt.TimerSlack = time.Second
 	}
 	simhook.DenseAll = opt.Dense
 	simhook.DenseFuncs = map[string]bool{}
@@ -378,8 +378,8 @@ func (d *driver) candidates(now time.Time) []cand {
 	oldest := now
 	for _, t := range d.rt.Parked() {
 		out = append(out, cand{label: fmt.Sprintf("T%d", t.ID), task: t})
-		if !t.ParkedAt.IsZero() && t.ParkedAt.Before(oldest) {
-			oldest = t.ParkedAt
+		if !t.RunnableSince.IsZero() && t.RunnableSince.Before(oldest) {
+			oldest = t.RunnableSince
 		}
 	}
 	for _, e := range d.rt.Events() {
